@@ -162,7 +162,10 @@ def run(ctx, repo, tier):
         ctx.inconclusive("PAIRIO", "C20.legend.range", "legend scan loop not recognised", gc.where)
     else:
         a = rng[0].iter.args
-        vals = [x.value if isinstance(x, ast.Constant) else None for x in a]
+        lconst = {n.targets[0].id: n.value.value for n in ast.walk(gc.node) if isinstance(n, ast.Assign) and isinstance(n.targets[0], ast.Name)
+                  and isinstance(n.value, ast.Constant) and
+                  sum(1 for m in ast.walk(gc.node) if isinstance(m, ast.Assign) and isinstance(m.targets[0], ast.Name) and m.targets[0].id == n.targets[0].id) == 1}
+        vals = [x.value if isinstance(x, ast.Constant) else (lconst.get(x.id) if isinstance(x, ast.Name) else None) for x in a]
         lo, hi = (0, vals[0]) if len(vals) == 1 else (vals[0], vals[1])
         if lo is None or hi is None:
             ctx.inconclusive("PAIRIO", "C20.legend.range", "legend scan range is not constant", gc.where, src(rng[0].iter))
@@ -189,6 +192,33 @@ def run(ctx, repo, tier):
         ctx.check(okn, "PAIRIO", "C20.legend.text", "the column name is the text between the quotes of the legend line", gc.where,
                   src(app[0])[:100] if app else "", witness="legend text is not the quoted part")
         ctx.check(bool(app) and src(app[0].func.value) == "result", "ORD", "C20.legend.order", "legends are appended in file order", gc.where, witness="")
+    # the scan may only stop at the end of the header: any other exit that depends on the number of names found so far must leave
+    # room for the time column plus ten legends
+    file_loops = [n for n in ast.walk(gc.node) if isinstance(n, ast.For) and not (isinstance(n.iter, ast.Call) and isinstance(n.iter.func, ast.Name) and n.iter.func.id == "range")]
+    for fl in file_loops:
+        for br in [n for n in ast.walk(fl) if isinstance(n, ast.Break)]:
+            cond = getattr(br, "_parent", None)
+            while cond is not None and not isinstance(cond, ast.If):
+                cond = getattr(cond, "_parent", None)
+            if cond is None:
+                continue
+            t = cond.test
+            txt = src(t)
+            if "len(" in txt and isinstance(t, ast.Compare) and len(t.ops) == 1:
+                rhs = t.comparators[0]
+                lhs = t.left
+                c = None
+                for side in (rhs, lhs):
+                    if isinstance(side, ast.Constant):
+                        c = side.value
+                    elif isinstance(side, ast.Name) and side.id in lconst:
+                        c = lconst[side.id]
+                ctx.instance("PAIRIO")
+                if isinstance(c, int):
+                    need = 11 if isinstance(t.ops[0], (ast.Eq, ast.GtE)) else 12
+                    ctx.check(c >= need, "PAIRIO", "C20.legend.earlystop", "an early exit of the legend scan leaves room for the time column and "
+                              "ten legends", gc.where, txt, witness=f"`{txt}` stops after {c - 1} legend(s): the names list starts with the time column, "
+                              f"so a file with ten series loses its last legend (s9)")
     first = [n for n in gc.node.body if isinstance(n, ast.Assign) and isinstance(n.value, ast.List)]
     ctx.check(bool(first) and len(first[0].value.elts) == 1 and isinstance(first[0].value.elts[0], ast.Constant) and
               isinstance(first[0].value.elts[0].value, str), "PAIRIO", "C20.legend.time", "the first column is the time column, legends follow",
@@ -205,7 +235,13 @@ def run(ctx, repo, tier):
         txt = src(e).replace(" ", "")
         okc = txt in ("self.load_energy()[energy_type].to_numpy()", "self.load_energy()[energy_type].values", "np.array(self.load_energy()[energy_type])",
                       "np.asarray(self.load_energy()[energy_type])")
-    if okc:
+    sq = [n for n in ast.walk(ls.node) if isinstance(n, ast.Call) and isinstance(n.func, ast.Attribute) and n.func.attr in ("squeeze", "item")] + \
+         [n for n in ast.walk(ls.node) if isinstance(n, ast.Call) and (repo.dotted_of(ls.module, n.func) or "") == "numpy.squeeze"]
+    if sq:
+        ctx.violate("PAIRIO", "C20.single", "the selected column is squeezed: a table with exactly one data row comes back as a 0-d scalar instead "
+                    "of one row per data line (len() and indexing of the result fail for a one-cell grid)", ls.where, src(sq[0])[:160],
+                    witness="`.squeeze()` on an array with one row removes the row axis")
+    elif okc:
         ctx.ok("PAIRIO", "C20.single", "a single energy column is the named column of the same frame, in row order", ls.where)
     elif len(r1) == 1 and any(s_ in src(r1[0].value) for s_ in ("sort", "[::-1]", "iloc[1:", "dropna", "unique")):
         ctx.violate("PAIRIO", "C20.single", "the named column is re-ordered / filtered before it is returned: row k no longer belongs to cell k",
